@@ -444,7 +444,7 @@ def cat_cases(draw):
 
 
 def checks(tier):
-    n1, n2, n3 = {"quick": (12000, 3600, 1200), "thorough": (320000, 60000, 20000)}.get(tier, (10, 10, 10))
+    n1, n2, n3 = {"quick": (12000, 3600, 1200), "thorough": (120000, 36000, 12000)}.get(tier, (10, 10, 10))
     return [
         Check("roi2d", fn_roi, strategy=roi_cases(), examples=n1, reset=False),
         Check("projected3d", fn_proj3d, strategy=proj_cases(), examples=n2, reset=False),
